@@ -1323,6 +1323,111 @@ def oracle_rto_backoff(case, impl):
     return hits
 
 
+def oracle_karn(case, impl):
+    """C06/C16 at the connection level (Karn's rule): an acknowledgement that newly acknowledges only segments that
+    were transmitted more than once yields no RTT sample - the smoothed RTT is the same after the poll."""
+    tr = Trace(case, impl)
+    hits = []
+    if any(l.startswith(("vs tmode", "vs chanclose")) for l in case):
+        return []
+    count, pending, highest, prev_rtt, plen_seen, sacked = {}, [], None, None, {}, set()
+    for ev in tr.events:
+        if ev["op"] == "new":
+            count, pending, plen_seen, sacked = {}, [], {}, set()
+            highest = (int(ev["opts"].get("our", 101)) - 1) % 65536
+            prev_rtt = None
+        if ev["op"] == "inject" and "dgram" in ev:
+            pending.append(ev["dgram"])
+        if ev["op"] != "poll" or "dgrams" not in ev:
+            continue
+        fp = ev["fp"]
+        newly, clean = set(), True
+        for d in pending:
+            if d["type"] in (3, 4):
+                continue
+            if highest is not None and (_md(d["ack"], highest) > 0 or _sack_beyond(d, highest)):
+                return hits
+            # (the implementation takes a sample from EVERY segment a cumulative ACK drains - also from one that a
+            # selective ACK had marked delivered before - and from every newly SACKed one)
+            for q in list(count):
+                if _md(d["ack"], q) >= 0:
+                    newly.add((q, count.pop(q)))
+                    sacked.discard(q)
+            if d["sack"] is not None:
+                raw = (bytes(d["sack"]) + bytes(8))[:8]
+                for b in range(64):
+                    if raw[b // 8] >> (b % 8) & 1:
+                        q = (d["ack"] + 2 + b) % 65536
+                        if q in count and q not in sacked:
+                            newly.add((q, count[q]))
+                            sacked.add(q)
+        pending = []
+        if newly and all(n > 1 for _, n in newly) and prev_rtt is not None and ev["res"].startswith("pending") \
+                and fp.get("rec", "no") == "no" and fp.get("rtt") != prev_rtt:
+            hits.append({"sig": {"oracle": "karn", "what": "rtt_sample_from_retransmitted_segment"},
+                         "text": f"poll at t={ev['t']} ns: the acknowledgements processed newly cover only sequence numbers {sorted(q for q, _ in newly)[:4]}, each transmitted more than once, yet the smoothed RTT moved from {prev_rtt} to {fp.get('rtt')} ns (Karn's rule: a retransmitted segment gives no sample)"})
+            return hits
+        prev_rtt = fp.get("rtt")
+        for d in ev["dgrams"]:
+            if d["type"] == 0:
+                # (a number that comes back with a different size was released by a probe pop: a new segment)
+                if plen_seen.get(d["seq"]) not in (None, d["plen"]):
+                    count[d["seq"]] = 0
+                plen_seen[d["seq"]] = d["plen"]
+                count[d["seq"]] = count.get(d["seq"], 0) + 1
+                if highest is None or _md(d["seq"], highest) > 0:
+                    highest = d["seq"]
+            elif d["type"] == 1 and (highest is None or _md(d["seq"], highest) > 0):
+                highest = d["seq"]
+    return hits
+
+
+def oracle_acked_not_resent(case, impl):
+    """C06: a data sequence number the peer has acknowledged - cumulatively or selectively, in a datagram the
+    connection has processed - is never put on the wire again."""
+    tr = Trace(case, impl)
+    hits = []
+    if any(l.startswith(("vs tmode", "vs chanclose")) for l in case):
+        return []
+    acked, pending, highest, cum = set(), [], None, None
+    for ev in tr.events:
+        if ev["op"] == "new":
+            acked, pending = set(), []
+            highest = (int(ev["opts"].get("our", 101)) - 1) % 65536
+            cum = highest
+        if ev["op"] == "inject" and "dgram" in ev:
+            pending.append(ev["dgram"])
+        if ev["op"] != "poll" or "dgrams" not in ev:
+            continue
+        for d in pending:
+            if d["type"] in (1, 3, 4):
+                continue             # (a FIN out of sequence is dropped whole, its acknowledgement with it: not counted)
+            if highest is not None and (_md(d["ack"], highest) > 0 or _sack_beyond(d, highest)):
+                return hits
+            if _md(d["ack"], cum) > 0:
+                cum = d["ack"]
+            if d["sack"] is not None:
+                raw = (bytes(d["sack"]) + bytes(8))[:8]
+                for b in range(64):
+                    if raw[b // 8] >> (b % 8) & 1:
+                        acked.add((d["ack"] + 2 + b) % 65536)
+        pending = []
+        if not ev["fp"].get("st", "").startswith(("Established", "FinWait1")):
+            return hits          # (a packet the state table drops is not processed: judged only in the plain states)
+        for d in ev["dgrams"]:
+            if d["type"] != 0:
+                if d["type"] == 1 and (highest is None or _md(d["seq"], highest) > 0):
+                    highest = d["seq"]
+                continue
+            if _md(d["seq"], cum) <= 0 or d["seq"] in acked:
+                hits.append({"sig": {"oracle": "acked_not_resent", "what": "acknowledged_segment_retransmitted"},
+                             "text": f"poll at t={ev['t']} ns puts data seq {d['seq']} on the wire although the peer had acknowledged it ({'cumulatively, ack_nr ' + str(cum) if _md(d['seq'], cum) <= 0 else 'selectively'})"})
+                return hits
+            if highest is None or _md(d["seq"], highest) > 0:
+                highest = d["seq"]
+    return hits
+
+
 def oracle_eof_honest(case, impl):
     """C03: a reader sees a clean end-of-stream only after the peer's FIN: never when no FIN was ever received
     (connection aborted, channel from the socket lost, cancelled): then reads must report an error."""
@@ -1482,6 +1587,8 @@ def oracle_window_reopen(case, impl):
 
 
 ALL = {
+    "karn": oracle_karn,
+    "acked_not_resent": oracle_acked_not_resent,
     "read_content": oracle_read_content,
     "rx_honesty": oracle_rx_honesty,
     "rto_backoff": oracle_rto_backoff,
